@@ -33,7 +33,7 @@ type specSig struct {
 type summary struct{ docPure bool }
 
 type Program struct {
-	overlays map[string]*Contract // overlay contracts replaced by synthesised ones during frame inference
+	overlays       map[string]*Contract // overlay contracts replaced by synthesised ones during frame inference
 	repo           string
 	verif          string
 	fset           *token.FileSet
